@@ -91,6 +91,33 @@ var structural = []string{
 	"GET /x HTTP/1.7\r\nHost: " + probeHost + "\r\n\r\n",
 }
 
+// nonUTF8Hosts: requests whose host — absolute-form authority, CONNECT target or Host field — is not
+// valid UTF-8 and cannot be dialled: the dialer labels dialer_errors_total with it (F35, repaired: the
+// label used to make prometheus panic and the process die). A regression target generated every run,
+// on every listener.
+func nonUTF8Hosts(r *core.Rand) []string {
+	bad := []string{"\xf0", "\xff", "\x80", "\xc3\x28", "\xe2\x82", "\xed\xa0\x80", "\xfe\xff"}
+	b := func() string { return core.Pick(r, bad) }
+	var out []string
+	// a CONNECT is dialled with the target as it stands
+	h := core.Pick(r, []string{"bad" + b() + ".invalid:81", "a." + b() + b() + ".invalid:443", b() + ":80", "x" + b() + ":8443"})
+	out = append(out, "CONNECT "+h+" HTTP/1.1\r\nHost: "+h+"\r\n\r\n")
+	// a Host that is no valid host:port reaches the dialer bracketed, as it stands
+	h = core.Pick(r, []string{"bad.invalid:8" + b() + "1", "bad.invalid:" + b(), "a." + b() + "(.invalid:443", "bad" + b() + ".invalid:x"})
+	out = append(out, "GET /x HTTP/1.1\r\nHost: "+h+"\r\n\r\n")
+	// other places a host can come from
+	h = core.Pick(r, []string{"bad" + b() + ".invalid:81", "bad.invalid:8" + b() + "1", "probe" + b() + ".test:" + portProbe})
+	switch r.Intn(3) {
+	case 0:
+		out = append(out, "GET http://"+h+"/p?q=1 HTTP/1.1\r\nHost: "+h+"\r\n\r\n")
+	case 1:
+		out = append(out, "POST http://"+h+"/ HTTP/1.0\r\nHost: x\r\nContent-Length: 2\r\n\r\nhi")
+	case 2:
+		out = append(out, "GET /x HTTP/1.1\r\nHost: "+h+"\r\n\r\n")
+	}
+	return out
+}
+
 var badChunks = []string{
 	"zz\r\nhello\r\n0\r\n\r\n", "-1\r\nhello\r\n0\r\n\r\n", "ffffffffffffffff1\r\nhello\r\n0\r\n\r\n", "5\r\nhelloXX0\r\n\r\n",
 	"5 ; ext\x00\r\nhello\r\n0\r\n\r\n", "5\nhello\n0\n\n", "5\r\nhel", "0x5\r\nhello\r\n0\r\n\r\n", "5\r\nhello\r\n0\r\nTrailer without colon\r\n\r\n",
@@ -154,6 +181,12 @@ func genClient(g *gen, quick bool) {
 				continue
 			}
 			g.add(&Case{Kind: "client", Via: l, What: "structural", InputHex: hexes(s), Sentinel: r.Chance(70)})
+		}
+	}
+	// hosts that are not valid UTF-8 (beside the three fixed ones among the structural requests)
+	for i := 0; i < scale(8, 150); i++ {
+		for _, s := range nonUTF8Hosts(r) {
+			g.add(&Case{Kind: "client", Via: core.Pick(r, listeners), What: "non-utf8-host", InputHex: hexes(s), Sentinel: r.Chance(70)})
 		}
 	}
 	// binary garbage
